@@ -641,6 +641,12 @@ func runSchedule(cr *rng, seq int, script []string) (blocked bool) {
 				k, _ = strconv.Atoi(arg(1, "0"))
 				run.delPlan = arg(2, "1") == "1"
 			}
+			if sp == nil && cr.chance(12) {
+				// a purge that names a cache which does not exist touches nothing (model: no event at all)
+				run.ctl(func() { cache.RemoveHTTPCache("no-such-cache", []byte("GET s.test "+schedKeyURI(k))) })
+				emit("sched", "purge-other", itoa(int64(k)))
+				break
+			}
 			// half of the random purges go through the admin server's endpoint, as an operator's would
 			viaAdmin := sp == nil && cr.chance(50)
 			run.ctl(func() {
